@@ -38,6 +38,9 @@ const AE: &[(&str, &str)] = &[
 struct Cfg {
     chunk: usize,
     level: u32,
+    /// Builder calls made before the final ones (the last call of each kind wins).
+    earlier_levels: Vec<u32>,
+    earlier_chunks: Vec<usize>,
     ae: usize,
     ae_present: bool,
     method: &'static str,
@@ -71,9 +74,21 @@ fn gen_cfg(t: &mut Tape, focus: &str) -> Cfg {
         "C09" => ([1usize, 2, 5, 8, 10][t.draw(5) as usize], true, 1 + t.draw(9)),
         _ => (t.draw(AE.len() as u32) as usize, !t.chance(1, 8), t.draw(10)),
     };
+    let mut earlier_levels = Vec::new();
+    let mut earlier_chunks = Vec::new();
+    if matches!(focus, "C17" | "C15" | "C08" | "C09") {
+        for _ in 0..t.draw(3) {
+            earlier_levels.push([0u32, 0, 1, 6, 9][t.draw(5) as usize]);
+        }
+        for _ in 0..t.draw(2) {
+            earlier_chunks.push([1usize, 5, 4096][t.draw(3) as usize]);
+        }
+    }
     Cfg {
         chunk,
         level,
+        earlier_levels,
+        earlier_chunks,
         ae,
         ae_present: ae_present && ae != 0,
         method: match focus {
@@ -108,17 +123,20 @@ fn build(cfg: &Cfg) -> (http::Response<SimBody>, Option<W>, bool) {
     }
     let req = b.body(()).unwrap();
     let expect_gzip = http_serve::should_gzip(req.headers()) && cfg.level > 0;
+    let configure = |mut b: http_serve::StreamingBodyBuilder| {
+        for &l in &cfg.earlier_levels {
+            b = b.with_gzip_level(l);
+        }
+        for &c in &cfg.earlier_chunks {
+            b = b.with_chunk_size(c);
+        }
+        b.with_chunk_size(cfg.chunk).with_gzip_level(cfg.level)
+    };
     let (resp, w) = if cfg.as_parts {
         let (parts, _) = req.into_parts();
-        http_serve::streaming_body(&parts)
-            .with_chunk_size(cfg.chunk)
-            .with_gzip_level(cfg.level)
-            .build::<SimData, SimError>()
+        configure(http_serve::streaming_body(&parts)).build::<SimData, SimError>()
     } else {
-        http_serve::streaming_body(&req)
-            .with_chunk_size(cfg.chunk)
-            .with_gzip_level(cfg.level)
-            .build::<SimData, SimError>()
+        configure(http_serve::streaming_body(&req)).build::<SimData, SimError>()
     };
     (resp, w, expect_gzip)
 }
@@ -133,6 +151,7 @@ struct Sim {
     delivered: Vec<u8>,
     log: DrainLog,
     aborted: bool,
+    accepted_unknown: bool,
     writer_dead: bool,
     /// Set once the body has been dropped; ops invoked afterwards are judged by C11.
     body_gone: bool,
@@ -343,6 +362,7 @@ pub fn run(ctx: &mut Ctx) -> Result<RunOut, Violation> {
         delivered: Vec::new(),
         log: DrainLog::default(),
         aborted: false,
+        accepted_unknown: false,
         writer_dead: false,
         body_gone: false,
         accepted_after_body_drop: 0,
@@ -361,9 +381,10 @@ pub fn run(ctx: &mut Ctx) -> Result<RunOut, Violation> {
         sim.reference = Some(flate2::write::GzEncoder::new(Vec::new(), flate2::Compression::new(sim.cfg.level)));
     }
     let cfg_desc = format!(
-        "chunk={} level={} accept-encoding={} method={} repr={} payload={}",
+        "chunk={} level={}{} accept-encoding={} method={} repr={} payload={}",
         sim.cfg.chunk,
         sim.cfg.level,
+        if sim.cfg.earlier_levels.is_empty() && sim.cfg.earlier_chunks.is_empty() { String::new() } else { format!(" (after earlier builder calls levels {:?} chunks {:?})", sim.cfg.earlier_levels, sim.cfg.earlier_chunks) },
         if sim.cfg.ae_present { AE[sim.cfg.ae].0 } else { "absent" },
         sim.cfg.method,
         if sim.cfg.as_parts { "Parts" } else { "Request" },
@@ -388,7 +409,7 @@ pub fn run(ctx: &mut Ctx) -> Result<RunOut, Violation> {
             };
         }
         // Same headers as the GET twin, body delivers nothing.
-        let twin = Cfg { method: "GET", chunk: sim.cfg.chunk, level: sim.cfg.level, ae: sim.cfg.ae, ae_present: sim.cfg.ae_present, as_parts: sim.cfg.as_parts, payload: 0, seed: 0 };
+        let twin = Cfg { method: "GET", earlier_levels: sim.cfg.earlier_levels.clone(), earlier_chunks: sim.cfg.earlier_chunks.clone(), chunk: sim.cfg.chunk, level: sim.cfg.level, ae: sim.cfg.ae, ae_present: sim.cfg.ae_present, as_parts: sim.cfg.as_parts, payload: 0, seed: 0 };
         let (gresp, _gw, _) = build(&twin);
         let hs = |r: &http::HeaderMap| {
             let mut v: Vec<(String, Vec<u8>)> = r.iter().map(|(k, v)| (k.as_str().to_string(), v.as_bytes().to_vec())).collect();
@@ -400,6 +421,11 @@ pub fn run(ctx: &mut Ctx) -> Result<RunOut, Violation> {
         if focus == "C15" {
             if hs(gresp.headers()) != all_headers {
                 return violation("C15", "streaming-head-headers", format!("{cfg_desc}: HEAD headers vary={vary:?} ce={ce:?} differ from GET's {:?}", gresp.headers()));
+            }
+            if let Some(i) = &sim.log.initial {
+                if i.lower != 0 || !i.eos {
+                    return violation("C15", "streaming-head-body", format!("{cfg_desc}: HEAD body starts with size hint {}..{:?}, is_end_stream {}", i.lower, i.upper, i.eos));
+                }
             }
             if !sim.delivered.is_empty() || !clean {
                 return violation("C15", "streaming-head-body", format!("{cfg_desc}: HEAD body delivered {} bytes, clean end = {clean}", sim.delivered.len()));
@@ -422,6 +448,7 @@ pub fn run(ctx: &mut Ctx) -> Result<RunOut, Violation> {
     let n_ops = 1 + ctx.tape.draw(12);
     let fault_at = ctx.tape.draw(n_ops + 1);
     let mut flush_checks = 0u64;
+    let mut kinds: Vec<&'static str> = Vec::new();
     let mut sig = mix(0xB0, hash_str(&cfg_desc));
     for opi in 0..=n_ops {
         if sim.panic.is_some() {
@@ -462,7 +489,8 @@ pub fn run(ctx: &mut Ctx) -> Result<RunOut, Violation> {
             0 | 1 | 2 => {
                 // write(n), n in 0..3*chunk (bounded so that payloads stay small)
                 let cap = sim.cfg.chunk;
-                let n = match t.draw(6) {
+                let nk = t.draw(6);
+                let n = match nk {
                     0 => 0,
                     1 => 1,
                     2 => cap,
@@ -470,6 +498,7 @@ pub fn run(ctx: &mut Ctx) -> Result<RunOut, Violation> {
                     4 => cap + 1,
                     _ => t.draw((3 * cap).min(200_000) as u32 + 1) as usize,
                 };
+                kinds.push(["w0", "w1", "wc", "wc-1", "wc+1", "w*"][nk as usize]);
                 let live = !sim.aborted && !sim.writer_dead && !sim.body_gone;
                 let after_drop = sim.body_gone;
                 let dead_before = sim.writer_dead || sim.aborted;
@@ -501,6 +530,47 @@ pub fn run(ctx: &mut Ctx) -> Result<RunOut, Violation> {
             3 => {
                 // write_all(n) as a loop over write, like std's.
                 let n = 1 + t.draw((2 * sim.cfg.chunk).min(100_000) as u32 + 1) as usize;
+                kinds.push("wall");
+                if t.chance(1, 2) {
+                    // The writer's own `write_all` (std's default unless the crate overrides it).
+                    let buf = sim.gen_bytes(n);
+                    let live = !sim.aborted && !sim.writer_dead && !sim.body_gone;
+                    let Some(w) = sim.w.as_mut() else { break };
+                    let r = match catch(|| w.write_all(&buf)) {
+                        Ok(r) => r.map_err(|e| e.to_string()),
+                        Err(p) => {
+                            sim.panic = Some(format!("write_all panicked: {p}"));
+                            break;
+                        }
+                    };
+                    sim.ops.push(format!("Write::write_all({n}) -> {r:?}"));
+                    ctx.ev("real_write_all", n as u64, r.is_ok() as u64);
+                    match &r {
+                        Ok(()) => {
+                            sim.accepted.extend_from_slice(&buf);
+                            if sim.body_gone {
+                                sim.accepted_after_body_drop += n;
+                            }
+                            sim.unflushed = None;
+                            if let Some(rf) = sim.reference.as_mut() {
+                                if rf.write_all(&buf).is_err() {
+                                    sim.ref_ok = false;
+                                }
+                            }
+                        }
+                        Err(_) => {
+                            // How much was accepted before the failure is unknowable through
+                            // this call: equality oracles are off for the rest of the run.
+                            sim.writer_dead = true;
+                            sim.accepted_unknown = true;
+                            sim.unflushed = None;
+                        }
+                    }
+                    if matches!(focus, "C08" | "C09") && live && r.is_err() {
+                        return violation(focus_static(focus), "write-all-failed-on-live-body", format!("{cfg_desc}: ops {:?}", sim.ops));
+                    }
+                    continue;
+                }
                 let mut left = n;
                 let mut guard = 0;
                 while left > 0 && guard < 100_000 {
@@ -518,6 +588,7 @@ pub fn run(ctx: &mut Ctx) -> Result<RunOut, Violation> {
                 }
             }
             4 | 5 => {
+                kinds.push("flush");
                 let surely_unflushed = sim.unflushed.map(|u| u > 0).unwrap_or(false);
                 let after_drop = sim.body_gone;
                 let dead_before = sim.writer_dead || sim.aborted;
@@ -559,10 +630,12 @@ pub fn run(ctx: &mut Ctx) -> Result<RunOut, Violation> {
                 }
             }
             6 => {
+                kinds.push("poll");
                 let s = sim.poll();
                 sim.ops.push(format!("poll -> {s:?}"));
             }
             _ => {
+                kinds.push("drain");
                 sim.poll_until_pending();
                 sim.ops.push("poll-until-pending".into());
             }
@@ -626,7 +699,7 @@ pub fn run(ctx: &mut Ctx) -> Result<RunOut, Violation> {
                 return Ok(RunOut { sig, nontrivial: false }); // negotiation is C17's business
             }
             let p = focus_static(focus);
-            if sim.body_gone || sim.aborted {
+            if sim.body_gone || sim.aborted || sim.accepted_unknown {
                 return Ok(RunOut { sig, nontrivial: false });
             }
             if sim.empty_frames > 0 && focus != "C17" {
@@ -650,6 +723,10 @@ pub fn run(ctx: &mut Ctx) -> Result<RunOut, Violation> {
                 );
             }
             ctx.stats.add("b_bytes_compared", sim.accepted.len() as u64);
+            if kinds.len() <= 3 && [1usize, 2, 3, 4, 7].contains(&sim.cfg.chunk) {
+                // Short-sequence grid: 5 chunk sizes x (10 + 100 + 1000) op-kind sequences = 5550 cells.
+                ctx.stats.grid.insert(format!("chunk={}|{}", sim.cfg.chunk, kinds.join(",")));
+            }
             Ok(RunOut { sig, nontrivial: !sim.accepted.is_empty() || sim.gzip })
         }
         "C11" => {
@@ -674,7 +751,7 @@ pub fn run(ctx: &mut Ctx) -> Result<RunOut, Violation> {
                 if let GzState::Invalid(e) = gst {
                     return violation("C11", "abort-garbled-prefix", format!("{cfg_desc}: {e}"));
                 }
-                if !sim.accepted.starts_with(&dec) {
+                if !sim.accepted_unknown && !sim.accepted.starts_with(&dec) {
                     return violation("C11", "abort-delivered-not-prefix", format!("{cfg_desc}: delivered bytes are not a prefix of the written bytes (equal prefix {}); ops {:?}", common_prefix(&dec, &sim.accepted), sim.ops));
                 }
                 ctx.stats.bump("c11_aborts_judged");
@@ -746,7 +823,7 @@ fn run_release(ctx: &mut Ctx) -> Result<RunOut, Violation> {
     let fill_total: usize = if chunk < 64 { 4096 + t.draw(8192) as usize } else if gzip { 100_000 + t.draw(60_000) as usize } else { 300_000 + t.draw(200_000) as usize };
     let step = [chunk, 1, 3 * chunk + 1, 1024][t.draw(4) as usize].max(1);
     let seed = t.draw(u32::MAX) as u64;
-    let cfg = Cfg { chunk, level, ae: if gzip { 1 } else { 0 }, ae_present: gzip, method: "GET", as_parts: false, payload: 0, seed };
+    let cfg = Cfg { chunk, level, earlier_levels: Vec::new(), earlier_chunks: Vec::new(), ae: if gzip { 1 } else { 0 }, ae_present: gzip, method: "GET", as_parts: false, payload: 0, seed };
     let desc = format!("release scenario chunk={chunk} gzip={gzip} level={level} fill={fill_total} write-size={step} polls-before-drop={consume_some}");
     ctx.ev("release", chunk as u64, fill_total as u64);
     // Everything the harness needs is allocated before the measured window.
